@@ -290,6 +290,7 @@ where
     let id = log.spy_instance(id);
     log.push(id, K::Subscribed);
     let u = src.actual_subscribe(SpyObserver { o: observer, id, log: log.clone() });
+    log.mark(id, "sub_done", 0);
     TrackedSub { u, id, log }
   }
 }
